@@ -131,15 +131,15 @@ func ToExpr(args []interface{}, types []reflect.Type, isVariadic bool) ([]Expr, 
 			typ = types[i]
 		} else {
 			typ = types[len(types)-1]
+			// 兼容可变参数
+			if isVariadic {
+				typ = typ.Elem()
+			}
 		}
 
 		if expr, ok := a.(Expr); ok {
 			expressions[i] = expr
 		} else {
-			// 兼容可变参数
-			if isVariadic {
-				typ = typ.Elem()
-			}
 			// 默认使用 equals 表达式
 			expressions[i] = Equals(a)
 		}
